@@ -322,7 +322,7 @@ def run_property(prop, tier, seed, impl="py", only=None):
                 else:
                     rep.errors.append("%s: proved symbolically but fails natively on %s: %s (engine unsound?)"
                                       % (tag, json.dumps(f["inputs"]), f["detail"]))
-            if r["pass"] == 0:
+            if r["pass"] == 0 and not h.native_optional:
                 rep.errors.append("%s: native cross-check exercised zero cases (precondition never satisfied)" % tag)
             continue
         if kind == "standin":
